@@ -312,3 +312,56 @@ Print Assumptions no_server_bug_maildir_plus.
 Theorem invariant_example : dinv demo_state.
 Proof. exact demo_state_inv. Qed.
 Print Assumptions invariant_example.
+
+(* ---- the subscriptions file of the maildir backend (Namespace/SubsFile.v):
+   [mstep] keeps the subscribed names as the list [x_subs]; the code keeps them
+   in a line-oriented UTF-8 text file that every SUBSCRIBE / UNSUBSCRIBE / LSUB
+   re-reads.  [write_file]/[read_file] are Subscriptions.write/.read at the
+   byte level. *)
+From PV Require Import Namespace.SubsFile Namespace.SubsFileProofs.
+
+(* UTF-8: decoding inverts encoding on every string without lone surrogates *)
+Theorem subs_utf8_roundtrip : forall s b, utf8_encode s = Some b -> utf8_decode b = Some s.
+Proof. exact utf8_roundtrip. Qed.
+Print Assumptions subs_utf8_roundtrip.
+
+(* names without CR / LF / lone surrogates are read back exactly (as the dict
+   of the names written); any other code point is data *)
+Theorem subscriptions_file_roundtrip : forall names, forallb line_safe names = true ->
+  exists b, write_file names = Some b /\ read_file b = Some (dedup names).
+Proof. exact file_roundtrip. Qed.
+Print Assumptions subscriptions_file_roundtrip.
+
+Theorem subscriptions_file_roundtrip_nodup : forall names,
+  forallb line_safe names = true -> NoDup names ->
+  exists b, write_file names = Some b /\ read_file b = Some names.
+Proof. exact file_roundtrip_nodup. Qed.
+Print Assumptions subscriptions_file_roundtrip_nodup.
+
+(* VT FF FS GS RS NEL LS PS — line boundaries of str.splitlines() — inside a
+   name are part of the name *)
+Theorem subscriptions_splitlines_chars_are_data : forall a c z, In c splitlines_extra ->
+  line_safe a = true -> line_safe z = true ->
+  exists b, write_file [a ++ c :: z] = Some b /\ read_file b = Some [a ++ c :: z].
+Proof. exact splitlines_chars_are_data. Qed.
+Print Assumptions subscriptions_splitlines_chars_are_data.
+
+(* the name guard of both layouts lets through only what the file can carry *)
+Theorem maildir_guard_line_safe : forall lay n,
+  lsplit lay n <> None -> pystr n -> line_safe n = true.
+Proof. exact lsplit_line_safe. Qed.
+Print Assumptions maildir_guard_line_safe.
+
+(* along every program the list [x_subs] of the model is what the file gives
+   back: the model's silence about the file is justified *)
+Theorem subscriptions_model_is_the_file : forall uid0 lay prog st,
+  subs_ok lay (x_subs st) ->
+  let st' := mrun uid0 lay st prog in
+  (forall n, In n (x_subs st') -> pystr n) ->
+  exists b, write_file (x_subs st') = Some b /\ read_file b = Some (x_subs st').
+Proof. exact md_subs_file_faithful. Qed.
+Print Assumptions subscriptions_model_is_the_file.
+
+Theorem subscriptions_invariant_example : forall lay, subs_ok lay [].
+Proof. exact subs_ok_empty. Qed.
+Print Assumptions subscriptions_invariant_example.
